@@ -133,7 +133,8 @@ def render_rs(rng, c, lines):
 
 
 RENDER = {"python": render_py, "typescript": render_ts, "javascript": render_ts, "rust": render_rs}
-EXT = {"python": ".py", "typescript": ".ts", "javascript": ".js", "rust": ".rs"}
+# every documented extension of the four languages (docs/api-reference.md): each must select ITS language's override section
+EXT = {"python": [".py"], "typescript": [".ts", ".tsx"], "javascript": [".js", ".jsx"], "rust": [".rs"]}
 
 
 def js_safe(lines):
@@ -210,7 +211,7 @@ def c16_generated_classes_differential(ctx):
                     classes.append((header, c["name"], public, loc))
                 if lang == "javascript":
                     lines = js_safe(lines)
-                p = root / f"m{i}{EXT[lang]}"
+                p = root / f"m{i}{EXT[lang][i % len(EXT[lang])]}"
                 p.write_text("\n".join(lines) + "\n")
                 files.append((p, lang, classes, "\n".join(lines)))
         for k in range(n_cfgs):
